@@ -412,6 +412,8 @@ impl FixedMethod {
             // Hasanta
             if character == B_HASANTA && rmc == B_HASANTA {
                 self.buffer.push(ZWNJ);
+                // The rest of a multi character value which begins with a Hasanta (Ro-fola).
+                self.buffer.push_str(&value[character.len_utf8()..]);
                 return;
             }
 
